@@ -315,6 +315,7 @@ def run(ctx):
 
 
 SELFTEST = [
+    ('quad-options-truthy-only', 'pyerrors/integrate.py', '    ikwargs = {k: kwargs[k] for k in intpars if k in kwargs}', '    ikwargs = {k: kwargs[k] for k in intpars if kwargs.get(k)}', 'C09-D2'),
     ('derivint-zeros-for-empty-range', 'pyerrors/integrate.py', '    derivint = []\n', '    derivint = []\n    if bval[0] == bval[1]:\n        derivint = [0.0] * (len(pobs) + len(bobs))\n', 'C09-D2'),
     ('start-from-data', 'pyerrors/roots.py', '    root = scipy.optimize.fsolve(func, guess, d_val)', '    if guess is None:\n        guess = d_val.ravel()[0]\n    root = scipy.optimize.fsolve(func, guess, d_val)', 'C09-D1'),
     ('benign-start-none-default', 'pyerrors/roots.py', 'def find_root(d, func, guess=1.0, **kwargs):', 'def find_root(d, func, guess=None, **kwargs):\n    if guess is None:\n        guess = 1.0', 'BENIGN'),
